@@ -403,6 +403,15 @@ def date(year, month_, day):
     if year < 1900:
         year += 1900
 
+    if day < 1:
+        # that many days before the first of the month
+        result = date(year, month_, 1)
+        if result not in ERROR_CODES:
+            result += day - 1
+            if result < 0:
+                return NUM_ERROR
+        return result
+
     # taking into account negative month and day values
     year, month_, day = normalize_year(year, month_, day)
 
